@@ -5,8 +5,6 @@
 //   filter <hex pattern> <strict 0|1> <invert 0|1>
 //   repeat <n>                                 the SAME output object receives n runs of the registry (CommandLineTestRunner's
 //                                              -r<n> loop: printTestRun(i, n), a fresh TestResult, runAllTests)
-//   repeat <n>                                 the SAME output object receives n runs of the registry (CommandLineTestRunner's
-//                                              -r<n> loop: printTestRun(i, n), a fresh TestResult, runAllTests)
 //   verbose <0|1|2>                            TestOutput::verbose(level_quiet | level_verbose | level_veryVerbose) before the run
 //   test <hex group> <hex name> <hex file> <line> <run|ign>     (ign = IgnoredUtestShell)
 //   print <hex file> <line> <hex text>         UtestShell::print(text, file, line)
@@ -40,7 +38,10 @@ namespace vo {
 
 static unsigned long g_clock = 0;
 static unsigned long fake_millis() { return g_clock; }
-static const char* fake_time_string() { return "2001-02-03T04:05:06"; }
+static const char* g_time_string = "2001-02-03T04:05:06";     // h_c16 replaces it on `timestr <hex>`
+static const char* fake_time_string() { return g_time_string; }
+static bool g_real_time_string = false;                        // h_c16 `realtime`: leave the platform's own time string in place
+static const char* (*g_platform_time_string)() = 0;
 
 struct Action {
     enum Kind { PRINT, FAIL, FAILX, FAILMSG, FAILLOC, POSTFAIL, CHECKS, TICK } kind;
@@ -198,7 +199,8 @@ struct Built {
 
 inline void stub_clock() {
     GetPlatformSpecificTimeInMillis = fake_millis;
-    GetPlatformSpecificTimeString = fake_time_string;
+    if (!g_platform_time_string) g_platform_time_string = GetPlatformSpecificTimeString;
+    GetPlatformSpecificTimeString = g_real_time_string ? g_platform_time_string : fake_time_string;
     g_clock = 0;
 }
 
